@@ -3,7 +3,16 @@
 (* Judges traces recorded from the real worker pipeline                    *)
 (*   Caching(Metrics(FilePoolStats(Timestamped(StorageFlushing(base,       *)
 (*   flush))))) over the real BatchedStoreBlobAccess                       *)
-(* (harness/execpipe) against ExecPipeline.tla (property C09).             *)
+(* (harness/execpipe: scripted, well-behaved base executor;                *)
+(* harness/outputs TestPipeline: the real localBuildExecutor with its      *)
+(* OutputHierarchy and build directory uploading through the batching      *)
+(* writer; there `bput` is every Put the base made and the referenced      *)
+(* digests include the files inside Trees and, with root_directory_digest, *)
+(* the Directory messages) against ExecPipeline.tla (property C09).        *)
+(* A storage call may succeed ("ok"), fail ("fail"), fail because it       *)
+(* cancels the request context ("cancel"), fail because the context was    *)
+(* cancelled earlier ("ctxdone"), or succeed while the context is          *)
+(* cancelled before it returns ("okcancel").                               *)
 (*                                                                         *)
 (* Layer P: the clauses of C09 (ACVerdict, ErrorVerdict, AckVerdict,       *)
 (* BufferVerdict of ExecPipeline.tla) are evaluated on the logged data     *)
@@ -84,16 +93,22 @@ TReset ==
 TCas ==
   /\ IsEvent("cas")
   /\ LET ds == ToSet(Line.ds)
-         ok == Line.res = "ok"
+         ok == Succeeded(Line.res)
          batchFM  == Line.via = "batch" /\ Line.op = "fm"
          batchPut == Line.via = "batch" /\ Line.op = "put"
          histPut  == Line.via = "caching" /\ Line.op = "put"
+         \* layer N: what the flush in progress still has to upload after
+         \* this call; a call that succeeds while the request context is
+         \* cancelled ("okcancel") makes the flush give up on it
+         rest == IF batchFM THEN (IF ok THEN ToSet(Line.missing) \cap tpend ELSE {})
+                 ELSE IF batchPut THEN tupload \ ds ELSE {}
      IN
        /\ cas' = IF batchPut /\ ok THEN cas \cup ds ELSE cas
        /\ casFailed' = (casFailed \/ ((batchFM \/ batchPut) /\ ~ok))
-       /\ flushError' = (flushError \/ ((batchFM \/ batchPut) /\ ~ok))
+       /\ flushError' = (flushError \/ ((batchFM \/ batchPut) /\ ~ok)
+                                    \/ (Line.res = "okcancel" /\ rest # {}))
        /\ otherFailed' = (otherFailed \/ (histPut /\ ~ok))
-       /\ cancelled' = (cancelled \/ Line.res \in {"cancel", "ctxdone"})
+       /\ cancelled' = (cancelled \/ Line.res \in {"cancel", "ctxdone", "okcancel"})
        /\ tpend' = IF batchFM THEN {} ELSE tpend
        /\ tupload' = IF batchFM THEN (IF ok THEN ToSet(Line.missing) \cap tpend ELSE {})
                      ELSE IF batchPut THEN tupload \ ds ELSE tupload
@@ -168,7 +183,7 @@ TMid ==
 TAc ==
   /\ IsEvent("ac")
   /\ LET isPut == Line.op = "put"
-         ok == Line.res = "ok"
+         ok == Succeeded(Line.res)
          r  == Line.result
          ex == IF tmid.exit # 0 THEN tmid.exit ELSE r.exit
      IN
@@ -182,7 +197,7 @@ TAc ==
                       refs |-> Refs(r), snap |-> cas]
                 ELSE ac
        /\ otherFailed' = (otherFailed \/ (isPut /\ ~ok))
-       /\ cancelled' = (cancelled \/ Line.res \in {"cancel", "ctxdone"})
+       /\ cancelled' = (cancelled \/ Line.res \in {"cancel", "ctxdone", "okcancel"})
        /\ Note(IF ~isPut THEN "NC:unexpected-action-cache-call"
                ELSE IF ac.present THEN "NC:second-action-cache-put" ELSE "ok")
   /\ UNCHANGED <<batch, sem, dnc, reqGood, pc, bufs, flushError, fl, fret, cas, resp, acked,
